@@ -144,7 +144,11 @@ def sym_modules(threads_per_block=4):
     import speckit.core as core, speckit.core_cuda as cc
     NP = NumpyShim(linalg_qr=exact_qr)
     bi = make_builtins()
+    import copy as _copy
     G = dict(core.__dict__)
+    for _n, _o in list(G.items()):          # module-level caches/tables: private copies, never shared with the real module
+        if isinstance(_o, (dict, list, set)) and not _n.startswith("__"):
+            G[_n] = _copy.copy(_o)
     G.update(np=NP, _prange=range, __builtins__=bi)
     for name, obj in list(core.__dict__.items()):
         f = getattr(obj, "py_func", obj)
@@ -154,6 +158,9 @@ def sym_modules(threads_per_block=4):
             G[name] = c
     cuda = FakeCuda()
     GC = dict(cc.__dict__)
+    for _n, _o in list(GC.items()):
+        if isinstance(_o, (dict, list, set)) and not _n.startswith("__"):
+            GC[_n] = _copy.copy(_o)
     GC.update(np=NP, math=MathShim(), cuda=cuda, THREADS_PER_BLOCK=threads_per_block, __builtins__=bi, _reduce_stats_nb=G["_reduce_stats_nb"])
     for name, obj in list(cc.__dict__.items()):
         f = getattr(obj, "py_func", None) or (obj if isinstance(obj, _types.FunctionType) else None)
